@@ -36,6 +36,13 @@ Proof.
   simpl vd_flagged in H. rewrite H1, H2 in H. discriminate H.
 Qed.
 
+Lemma verdict_sound_full_refuted :
+  ~ (forall (p : program) (vs : list verdict) (vd : verdict),
+       wf_program p = true -> check p = Ok vs -> In vd vs -> deletable p (vd_flagged vd)).
+Proof.
+  intro H. apply verdict_sound_refuted. intros p vs vd Hwf Hck Hin _. exact (H p vs vd Hwf Hck Hin).
+Qed.
+
 (* VC= ${VA} / VA= a / VB:= ${VC} / VA= b :  "VA is overwritten in line 4" on
    line 2, but VB:= read VA through VC: with line 2 VB is a, without it b. *)
 Definition prog_indirect : program :=
@@ -70,4 +77,103 @@ Lemma prog_incdefault_facts :
   check prog_incdefault = Ok [mkVerdict 0 1 KOverwritten; mkVerdict 1 3 KRedundant] /\
   final 6 (to_spec prog_incdefault) vA = Some la /\
   final 6 (to_spec (delete_nth 1 prog_incdefault)) vA = Some lb.
+Proof. repeat split; vm_compute; reflexivity. Qed.
+
+(* VA= a / VA!= ${VA} : line 1 "is redundant because of line 2", but the shell
+   command reads it: with line 1 the command is "a", without it "". *)
+Definition prog_shellself : program :=
+  [ asg 0 1 vA OpAssign [Lit la]; asg 0 2 vA OpShell [Ref vA] ].
+Lemma prog_shellself_facts :
+  wf_program prog_shellself = true /\
+  check prog_shellself = Ok [mkVerdict 0 1 KRedundant] /\
+  final 6 (to_spec prog_shellself) vA = Some [60; 97; 62]%N /\
+  final 6 (to_spec (delete_nth 0 prog_shellself)) vA = Some [60; 62]%N.
+Proof. repeat split; vm_compute; reflexivity. Qed.
+
+(* ----- each conjunct of the guard is needed ----- *)
+
+Lemma refute (P : program -> verdict -> Prop) p vs vd x v1 v2 :
+  wf_program p = true -> check p = Ok vs -> In vd vs -> P p vd ->
+  final 6 (to_spec p) x = Some v1 ->
+  final 6 (to_spec (delete_nth (vd_flagged vd) p)) x = Some v2 -> v1 <> v2 ->
+  ~ verdict_sound_on P.
+Proof.
+  intros Hwf Hck Hin HP H1 H2 Hne H.
+  specialize (H p vs vd Hwf Hck Hin HP 6%nat x). rewrite H1, H2 in H. congruence.
+Qed.
+
+(* without "no ':='/'!=' with a '$' strictly between the two lines" *)
+Lemma guard_needs_between :
+  ~ verdict_sound_on (fun p vd =>
+      plain_on (line_var p (vd_flagged vd)) (firstn (S (Nat.max (vd_flagged vd) (vd_because vd))) p) = true /\
+      backward_default_ok p vd = true /\ forward_same_ok p vd = true).
+Proof.
+  destruct prog_indirect_facts as (Hwf & Hck & H1 & H2).
+  eapply (refute _ prog_indirect _ (mkVerdict 1 3 KOverwritten) vB);
+    [exact Hwf|exact Hck|left; reflexivity| |exact H1|exact H2|discriminate].
+  repeat split; vm_compute; reflexivity.
+Qed.
+
+(* without "the assignments to the variable are plain" *)
+Lemma guard_needs_plain_on :
+  ~ verdict_sound_on (fun p vd =>
+      (if Nat.ltb (vd_flagged vd) (vd_because vd)
+       then eager_plain (between p (Nat.min (vd_flagged vd) (vd_because vd)) (Nat.max (vd_flagged vd) (vd_because vd)))
+       else true) = true /\
+      backward_default_ok p vd = true /\ forward_same_ok p vd = true).
+Proof.
+  destruct prog_eval_facts as (Hwf & Hck & H1 & H2).
+  eapply (refute _ prog_eval _ verdict_eval vA);
+    [exact Hwf|exact Hck|left; reflexivity| |exact H1|exact H2|discriminate].
+  repeat split; vm_compute; reflexivity.
+Qed.
+
+(* without forward_same_ok *)
+Lemma guard_needs_forward_same_ok :
+  ~ verdict_sound_on (fun p vd =>
+      plain_on (line_var p (vd_flagged vd)) (firstn (S (Nat.max (vd_flagged vd) (vd_because vd))) p) = true /\
+      (if Nat.ltb (vd_flagged vd) (vd_because vd)
+       then eager_plain (between p (Nat.min (vd_flagged vd) (vd_because vd)) (Nat.max (vd_flagged vd) (vd_because vd)))
+       else true) = true /\
+      backward_default_ok p vd = true).
+Proof.
+  destruct prog_shell_facts as (Hwf & Hck & H1 & H2).
+  eapply (refute _ prog_shell _ (mkVerdict 2 1 KRedundant) vA);
+    [exact Hwf|exact Hck|right; left; reflexivity| |exact H1|exact H2|discriminate].
+  repeat split; vm_compute; reflexivity.
+Qed.
+
+(* without backward_default_ok *)
+Lemma guard_needs_backward_default_ok :
+  ~ verdict_sound_on (fun p vd =>
+      plain_on (line_var p (vd_flagged vd)) (firstn (S (Nat.max (vd_flagged vd) (vd_because vd))) p) = true /\
+      (if Nat.ltb (vd_flagged vd) (vd_because vd)
+       then eager_plain (between p (Nat.min (vd_flagged vd) (vd_because vd)) (Nat.max (vd_flagged vd) (vd_because vd)))
+       else true) = true /\
+      forward_same_ok p vd = true).
+Proof.
+  destruct prog_incdefault_facts as (Hwf & Hck & H1 & H2).
+  eapply (refute _ prog_incdefault _ (mkVerdict 1 3 KRedundant) vA);
+    [exact Hwf|exact Hck|right; left; reflexivity| |exact H1|exact H2|discriminate].
+  repeat split; vm_compute; reflexivity.
+Qed.
+
+(* the guard is satisfiable, for each kind of verdict:
+   VA= a / VA= a / VA?= b / VA= b : line 2 redundant, line 3 no effect, line 2 overwritten *)
+Definition prog_good : program :=
+  [ asg 0 1 vA OpAssign [Lit la]; asg 0 2 vA OpAssign [Lit la];
+    asg 0 3 vA OpDefault [Lit lb]; asg 0 4 vA OpAssign [Lit lb] ].
+Lemma prog_good_facts :
+  wf_program prog_good = true /\
+  check prog_good = Ok [mkVerdict 1 0 KRedundant; mkVerdict 2 1 KNoEffect; mkVerdict 2 3 KOverwritten] /\
+  forallb (guard prog_good) [mkVerdict 1 0 KRedundant; mkVerdict 2 1 KNoEffect; mkVerdict 2 3 KOverwritten] = true.
+Proof. repeat split; vm_compute; reflexivity. Qed.
+
+(* a program with ':=' of a reference elsewhere is still inside the guard:
+   VB:= ${VC} / VA= a / VA= a *)
+Definition prog_good_eval : program :=
+  [ asg 0 1 vB OpEval [Ref vC]; asg 0 2 vA OpAssign [Lit la]; asg 0 3 vA OpAssign [Lit la] ].
+Lemma prog_good_eval_facts :
+  wf_program prog_good_eval = true /\ check prog_good_eval = Ok [mkVerdict 2 1 KRedundant] /\
+  guard prog_good_eval (mkVerdict 2 1 KRedundant) = true /\ eager_plain prog_good_eval = false.
 Proof. repeat split; vm_compute; reflexivity. Qed.
